@@ -30,6 +30,35 @@ def _spec():
     return json.load(open(os.path.join(LEAN, "theorems.json")))["SQLTIE"]
 
 
+def _cache_key(generated, extra):
+    """the tie's outcome is a function of the regenerated file and of the Lean sources it is checked against"""
+    import hashlib, glob
+    h = hashlib.sha256()
+    for f in [generated] + sorted(glob.glob(os.path.join(LEAN, "Wormhole", "Tie", "*.lean"))) + \
+            [os.path.join(LEAN, "Wormhole", x) for x in extra] + [os.path.join(LEAN, "theorems.json")]:
+        try:
+            h.update(open(f, "rb").read())
+        except OSError:
+            h.update(b"?")
+    return h.hexdigest()
+
+
+def _cache_get(tag, key):
+    try:
+        d = json.load(open(os.path.join(LEAN, ".lake", "tie_cache_%s.json" % tag)))
+        return d["result"] if d.get("key") == key else None
+    except Exception:
+        return None
+
+
+def _cache_put(tag, key, res):
+    try:
+        with open(os.path.join(LEAN, ".lake", "tie_cache_%s.json" % tag), "w") as f:
+            json.dump({"key": key, "result": res}, f)
+    except Exception:
+        pass
+
+
 def _lake(target):
     p = subprocess.run(["lake", "build", target], cwd=LEAN, stdout=subprocess.PIPE, stderr=subprocess.STDOUT, timeout=3000)
     return p.returncode == 0, p.stdout.decode()
@@ -48,6 +77,11 @@ def run():
             return res
         res["statements"] = info["statements"]
         res["regenerated"] = info["changed"]
+        key = _cache_key(translate_sql.OUT, ["Sql.lean", "Store.lean", "Basic.lean"])
+        hit = _cache_get("sql", key)
+        if hit is not None:
+            hit["cached"] = True
+            return hit
         ok, log = _lake("Wormhole.Tie.All")
         if not ok:
             # which modules (= which Python functions) no longer check
@@ -87,6 +121,7 @@ def run():
                 res["status"] = "broken"
                 res["detail"] += "axioms: %s\n" % json.dumps(bad)[:600]
     res["detail"] = res["detail"][-1500:]
+    _cache_put("sql", key, res)
     return res
 
 
@@ -129,15 +164,22 @@ def run_ws():
             return res
         res["checks_translated"] = info["handlers"]
         res["regenerated"] = info["changed"]
+        key = _cache_key(translate_ws.OUT, ["WsGuards.lean", "Decode.lean", "Ws.lean", os.path.join("Props", "C17.lean")])
+        hit = _cache_get("ws", key)
+        if hit is not None:
+            hit["cached"] = True
+            return hit
         ok, log = _lake(spec["modules"][0])
         if not ok:
             res["status"] = "broken"
             res["detail"] = " | ".join([l for l in log.splitlines() if "error" in l][:4])[-1200:]
+            _cache_put("ws", key, res)
             return res
         res["discharged"], bad = _audit(spec["modules"], spec["theorems"], "WSTIE")
         if bad:
             res["status"] = "broken"
             res["detail"] = "axioms: %s" % json.dumps(bad)[:600]
+        _cache_put("ws", key, res)
     return res
 
 
